@@ -328,6 +328,17 @@ fn c05_one(lines: &[String], folded: bool, chomp: Chomp, parent: usize, eof: usi
         text.push_str(&l);
         text.push('\n');
     }
+    // trailing comment lines, indented less than the content (they end the scalar; also when the
+    // scalar has no content at all, which only an explicit indicator can express)
+    let has_content = br.body_lines.iter().any(|l| !l.trim_matches(' ').is_empty());
+    if ci > 0 && (br.explicit_indicator || has_content) && r.chance(1, 6) {
+        for _ in 0..r.range(1, 3) {
+            text.push_str(&" ".repeat(r.below(ci)));
+            text.push_str(r.pick(&["# c", "#", "# trailing: comment"]));
+            text.push('\n');
+        }
+        stats.cnt("trailing_comments_less_indented", 1);
+    }
     let mut extra_scalars: Vec<(String, ScalarStyle)> = vec![];
     match shape {
         0 => {}
